@@ -7,6 +7,7 @@ import GwbVerif.Model.Parse.Json
 import GwbVerif.Model.Apps.Grid
 import GwbVerif.Model.Apps.Dat
 import GwbVerif.Model.Apps.GridMesh
+import GwbVerif.Model.Parse.Schema
 open Gwb Lean
 
 /-- the text gwb-dat prints for a column name -/
@@ -198,6 +199,9 @@ partial def loop (decl : Json) (version : String) (stdin : IO.FS.Stream) (worlds
       | .error _ => return .error "parse"
       | .ok doc =>
         if !(doc matches .obj _) then return .error "parse" else
+        -- schema validation against the declarations dumped from the library under test (parameters.cc:175-193)
+        if !(schemaUnsupported decl).isEmpty then return .error "schema-uses-unmodelled-keywords" else
+        if !(validateDoc decl doc) then return .error "schema" else
         let aux ← (match auxPath with
           | some p => parseAux p
           | none => pure [])
@@ -214,6 +218,14 @@ partial def loop (decl : Json) (version : String) (stdin : IO.FS.Stream) (worlds
     match r with
     | .ok ws' => IO.println "ok"; loop decl version stdin ws'
     | .error e => IO.println s!"err {e}"; loop decl version stdin worlds
+  -- schema validation alone (C12): `ok 1` accepted, `ok 0` rejected
+  | ["validate", file] =>
+    match schemaUnsupported decl with
+    | [] =>
+      match Json.parse (← IO.FS.readFile file) with
+      | .error _ => IO.println "err parse"; loop decl version stdin worlds
+      | .ok doc => IO.println (if validateDoc decl doc then "ok 1" else "ok 0"); loop decl version stdin worlds
+    | kws => IO.println s!"err schema-uses-unmodelled-keywords {"|".intercalate kws}"; loop decl version stdin worlds
   | ["free", id] => IO.println "ok"; loop decl version stdin (worlds.filter (·.1 != id))
   | cmd :: id :: args =>
     match find id with
